@@ -53,7 +53,8 @@ def queryParam (explode required : Bool) (name : Str) (sh : Shape) (fields : Lis
 /-! ### The measured table (regenerated into Gen/C06.lean) -/
 
 /-- stimulus: 0 absent, 1 valid, 2 wrong type, 3 overflow, 4 bad date, 5 bad uuid, 6 malformed JSON,
-7 wrong label/matrix prefix, 8 duplicated header, 9 empty value (typed), 10 malformed percent-escape (path). -/
+7 wrong label/matrix prefix, 8 duplicated header, 9 empty value (typed), 10 malformed percent-escape (path),
+11 valid with '%' and '+' (header, cookie). -/
 structure Row where
   fw : Nat
   loc : Nat         -- 0 path 1 query 2 header 3 cookie
@@ -72,6 +73,7 @@ def mustReject (r : Row) : Bool :=
   match r.stimulus with
   | 0 => r.required          -- lacks a required parameter
   | 1 => false               -- all present and well-formed: never rejected
+  | 11 => false              -- the same with '%' and '+' in a header / cookie value (data there, not escapes)
   | _ => true                -- repeated single-valued header / unconvertible value
 
 /-- Frameworks whose wrapper takes a configurable error handler receiving the typed error:
